@@ -120,6 +120,14 @@ def run(ctx):
                 known = {c[0] for c in h.COMMANDS.values()}   # the version's table, not whatever the instance has learnt since
                 unknown_ids = [i for i in ((0xF7, 0xE9) if version < 8 else (0x0F37, 0x00F7, 0x1234)) if i not in known]
                 repeated = [ezsplib.spec_header(version, seq, u) + bytes(rng.getrandbits(8) for _ in range(rng.choice([0, 1, 4]))) for u in unknown_ids]
+                # an undefined frame ID in front of bytes that would be a perfectly valid frame in ANOTHER header format (an extended
+                # header seen by the legacy parser and the other way round): unknown is unknown, nothing behind it is looked at
+                body = b"".join(p[1] for p in parts)
+                if version < 5 and 0xFF not in known:
+                    repeated.append(bytes([seq, 0x00, 0xFF, 0x00, cid & 0xFF]) + body)
+                    repeated.append(bytes([seq, 0x80, 0xFF, 0x00, cid & 0xFF]) + body)
+                elif version >= 8 and (cid << 8 | 0xFF) not in known and cid < 256:
+                    repeated.append(bytes([seq, 0x80, 0x01, 0xFF, cid & 0xFF]) + body)
                 for mode in ("pending-same", "pending-other", "none", "dead-same"):
                     for data in list(mutations(rng, version, frame, ids, ctx.n(6, 20))) + repeated:
                         h._awaiting.clear()
@@ -147,6 +155,59 @@ def run(ctx):
                         if fut is not None and fut.done() and not fut.cancelled():
                             fut.exception()
                         rows.append((version, pend, data, got, name))
+            # a command is still in flight when the protocol version is switched back to 4 (a reset): a frame in the new version that
+            # happens to carry its sequence number and its numeric frame ID - which names another command there - is not its reply
+            if version >= 5:
+                v4mod = importlib.import_module("bellows.ezsp.v4.commands")
+                v4_by_id = {c[0]: (n, c) for n, c in v4mod.COMMANDS.items()}
+                cands = [(n, c) for n, c in h.COMMANDS.items() if c[0] in v4_by_id and v4_by_id[c[0]][0] != n
+                         and not any(ezsplib.has(d, ("inv", "cond")) for _, _, d in ezsplib.schema_fields(v4_by_id[c[0]][1][2]))
+                         and not any(ezsplib.has(d, ("inv", "cond")) for _, _, d in ezsplib.schema_fields(c[1]))]
+                for n_old, c_old in cands[: ctx.n(4, 40)]:
+                    e2 = ezsp.EZSP({"path": "/dev/null"})
+                    gw2 = Gw()
+                    e2._gw = gw2
+                    e2._protocol = ezsp.EZSP._BY_VERSION[version](e2.handle_callback, gw2)
+                    e2.start_ezsp()
+                    cb2 = []
+                    e2.add_callback(lambda name, args: cb2.append(name))
+                    txf = ezsplib.schema_fields(c_old[1])
+                    tparts = [ezsplib.gen(d, rng, "rand", i == len(txf) - 1) for i, (_, _, d) in enumerate(txf)]
+                    try:
+                        from harness.props.c07 import tx_args as _tx_args
+
+                        a, k = _tx_args(n_old, txf, b"".join(p[1] for p in tparts), 0)
+                        task2 = loop.create_task(e2._protocol.command(n_old, *a, **k))
+                    except Exception:  # noqa: BLE001
+                        continue
+                    loop.settle()
+                    if not gw2.sent:
+                        task2.cancel()
+                        loop.settle()
+                        continue
+                    seq2 = gw2.sent[0][0]
+                    e2._switch_protocol_version(4)
+                    n_new, c_new = v4_by_id[c_old[0]]
+                    rxf = ezsplib.schema_fields(c_new[2])
+                    rparts = [ezsplib.gen(d, rng, "rand", i == len(rxf) - 1) for i, (_, _, d) in enumerate(rxf)]
+                    esc2 = None
+                    try:
+                        e2.frame_received(ezsplib.spec_header(4, seq2, c_old[0]) + b"".join(p[1] for p in rparts))
+                    except BaseException as x:  # noqa: BLE001
+                        esc2 = type(x).__name__
+                    loop.settle()
+                    ctx.cov["evaluations"] += 1
+                    ctx.count("version-switch-with-pending-command")
+                    if esc2:
+                        ctx.violation(f"v{version}->4: frame_received raised {esc2} for a frame arriving after the version switch", {"kind": "containment", "version": version},
+                                      {"kind": "switch", "version": version, "old": n_old, "new": n_new})
+                    elif task2.done() and not task2.cancelled() and task2.exception() is None:
+                        ctx.violation(f"command {n_old} sent under protocol version {version} (seq {seq2}, id {c_old[0]:#x}) was completed by a version-4 frame of {n_new} "
+                                      f"that arrived after the switch back to version 4: a pending command was completed by a frame that is not its reply",
+                                      {"kind": "containment", "version": version}, {"kind": "switch", "version": version, "old": n_old, "new": n_new})
+                    if not task2.done():
+                        task2.cancel()
+                        loop.settle()
             # afterwards a fresh command still completes normally
             h._awaiting.clear()
             h._seq = 7
@@ -218,7 +279,7 @@ def replay(ctx, obj):
     if r["kind"] != "frame":
         before = len(ctx.violations)
         run(ctx)
-        bad = [v for v in ctx.violations[before:] if v["key"].get("kind") == "not-recovering"]
+        bad = [v for v in ctx.violations[before:] if v["key"].get("kind") == "not-recovering" or v["replay"].get("kind") == "switch"]
         print("replay fresh:", "FAILS" if bad else "ok")
         if bad:
             print(f"VIOLATION property={ctx.pid} replay=replay")
